@@ -121,4 +121,21 @@ TEXT["C14"] = {
             "(their unsigned part is). Four genuine defects fixed (measure-reset with repeated targets, MPAD values reversed, imaginary flag read at the wrong row, flag bitset sized by qubits: heap overflow).",
     "technique": "Lean 4 theorems (linearity of the flow constraints) + equality/oracle correspondence with an exact forward-simulation decision procedure",
 }
+TEXT["C13"] = {
+    "level": "Kernel-checked: the reference rewrites for without_tags / without_noise leave no tag / are idempotent, keep the block structure, and without_tags changes nothing but tags in the executed stream, "
+             "for every circuit and nesting depth. Correspondence: without_noise / without_tags equal the reference rewrites up to fusion; decomposed and flattened circuits are flow-equivalent (with signs) to "
+             "their input and their detector error model describes the input's noise; c ; inverse(c) has the identity flows; inlined-feedback circuits contain no feedback and keep the detector error "
+             "model; time-reversed circuits have the returned flows (unsigned), the same number of detectors, all deterministic.",
+    "note": COMMON_NOTE + "The rewrites themselves are not modelled; they are judged through the flow model (C14) and the distribution oracle (C03). 'Same detecting regions' of time_reversed_for_flows is checked "
+            "only through detector count and determinism. Three genuine defects fixed (CZ with the record bit second in simplified_circuit, heralded channels and repeated measure-reset targets in circuit_inverse_qec).",
+    "technique": "Lean 4 theorems (reference rewrites) + oracle correspondence through the flow and distribution models",
+}
+TEXT["C19"] = {
+    "level": "Kernel-checked: the determinism checker reads one parity per executed DETECTOR, and the number of executed detectors of head ; REPEAT n {body} ; tail is affine in n, for every circuit. "
+             "Correspondence: generated circuits of small size are decided by the Lean tableau/frame models (executable, detector and observable counts, every detector and observable deterministic and 0 "
+             "without noise); large round counts are tied to those by template equality; the distance claim is checked with Stim's graphlike search, whose witness the Lean search checker validates.",
+    "note": COMMON_NOTE + "Minimality of the distance witness relies on Stim's search (validated on small models by C17); determinism for round counts that cannot be unrolled relies on template equality plus "
+            "Stim's loop-folded analysis (validated by C06). One genuine defect fixed (surface code generator validated distance/rounds after placing qubits: distance 0 never returned).",
+    "technique": "Lean 4 theorems (detector counting) + oracle correspondence (determinism via gauge parities) + metamorphic template comparison",
+}
 NOT_CLAIMED = {}
